@@ -245,7 +245,11 @@ def to_node(
             select = select_by_name.get(column, exp.Star() if is_star else scope.expression)
 
     if isinstance(scope.expression, exp.Subquery):
-        for inner_scope in scope.subquery_scopes:
+        # build_scope scopes the inner query of a parenthesized query as a derived table
+        inner_query = scope.expression.unnest()
+        for inner_scope in (*scope.derived_table_scopes, *scope.subquery_scopes):
+            if inner_scope.expression is not inner_query:
+                continue
             result = to_node(
                 column,
                 scope=inner_scope,
